@@ -1,0 +1,20 @@
+//go:build verif
+// +build verif
+
+package lql
+
+import "strings"
+
+// VC13ParseRelativeDateTime runs the front end of parseLqlDateTime (trim, lower-case) and
+// parseRalativeDateTime on the result. Compiled only under the build tag `verif`.
+func VC13ParseRelativeDateTime(dt0 string) error {
+	dt := strings.ToLower(strings.Trim(dt0, " "))
+	_, err := parseRalativeDateTime(dt)
+	return err
+}
+
+// VC13ParseLqlDateTime is parseLqlDateTime (the error only).
+func VC13ParseLqlDateTime(dt0 string) error {
+	_, err := parseLqlDateTime(dt0)
+	return err
+}
